@@ -267,15 +267,24 @@ func (c *Client) Recv(timeout time.Duration) (*Reply, error) {
 	c.rmu.Lock()
 	defer c.rmu.Unlock()
 	_ = c.c.SetReadDeadline(time.Now().Add(timeout))
-	hdr := make([]byte, 9)
-	if _, err := io.ReadFull(c.c, hdr); err != nil {
+	first := make([]byte, 1)
+	if _, err := io.ReadFull(c.c, first); err != nil {
 		var ne net.Error
 		if errors.As(err, &ne) && ne.Timeout() {
 			return nil, ErrTimeout
 		}
 		return nil, err
 	}
-	blen := int(int32(binary.BigEndian.Uint32(hdr[5:9])))
+	hlen := 9
+	if first[0]&0x7f <= 2 { // protocol v1/v2 frames carry a one-byte stream id
+		hlen = 8
+	}
+	hdr := make([]byte, hlen)
+	hdr[0] = first[0]
+	if _, err := io.ReadFull(c.c, hdr[1:]); err != nil {
+		return nil, err
+	}
+	blen := int(int32(binary.BigEndian.Uint32(hdr[hlen-4 : hlen])))
 	if blen < 0 || blen > 256<<20 {
 		return nil, fmt.Errorf("bad body length %d", blen)
 	}
